@@ -390,6 +390,41 @@ def check(pid, conf, tier, seed, workdir, replay, t0):
         corr_broken = True
         cases = {}
 
+    # -- the source differs from the tree the checks were last committed on: explore more widely before answering.  This only
+    #    decides how much is explored (further seeds of the same generators), never the verdict.
+    widened = []
+    if judged and not oracle_fail and not corr_broken and proof_ok and not replay and tier == "quick" and h_ok:
+        try:
+            import fingerprint
+            changed = fingerprint.differs(pid, REPO, conf.get("sources", ()))
+        except Exception as exc:  # the fingerprint is an optimisation: never let it decide anything
+            changed = False
+            notes.append("source fingerprint not available: %r" % (exc,))
+        if changed:
+            budget = conf.get("widen_budget", 300)
+            for s2 in conf.get("widen_seeds", [seed + 100, seed + 200]):
+                if time.time() - t0 > budget:
+                    break
+                log("[%s] the source differs from the committed baseline: exploring seed=%s as well" % (pid, s2))
+                r2 = explore(pid, conf, binpath, s2, tier, workdir, extra_env=extra_env)
+                if "error" in r2:
+                    notes.append("widened exploration seed %s: %s" % (s2, r2["error"][:300]))
+                    continue
+                widened.append({"seed": s2, "cases": r2["meta"].get("evaluations", len(r2["cases"]))})
+                fails2 = [i for i in r2["bad_oracle"] if not (r2["cases"][i].get("known") in known)]
+                if fails2 or r2["bad_corr"] or r2["judge_errors"]:
+                    # continue with this exploration as the one to report from
+                    res, cases = r2, r2["cases"]
+                    oracle_fail = fails2
+                    known_hits = {}
+                    for i in r2["bad_oracle"]:
+                        k = cases[i].get("known")
+                        if k and k in known:
+                            known_hits.setdefault(k, []).append(i)
+                    if r2["bad_corr"] or r2["judge_errors"]:
+                        corr_broken = True
+                    break
+
     for k, idxs in sorted(known_hits.items()):
         known_lines.append("KNOWN-FINDING: property=%s %s: %s (%d cases this run, e.g. %s)" % (
             pid, k, known[k]["what"], len(idxs), json.dumps(cases[smallest(cases, idxs)]["desc"], ensure_ascii=False)[:300]))
@@ -480,6 +515,7 @@ def check(pid, conf, tier, seed, workdir, replay, t0):
         "traces_validated_against_impl": meta.get("evaluations", 0) if judged else 0,
         "exhaustive": bool(meta.get("exhaustive", False)),
         "notes": notes,
+        "widened_exploration_because_source_changed": widened,
     }
     for k, v in meta.items():
         if k.startswith("x_"):
